@@ -187,6 +187,9 @@ def load_known():
 # ---------------------------------------------------------------- evidence
 
 def write_evidence(prop, tier, seed, level, coverage, wall, violations, assumptions):
+    global EVID
+    if os.path.realpath(REPO) != '/repo':
+        EVID = os.path.join(BUILD, 'evidence-scratch')      # runs against a scratch tree (seedcheck) never touch the committed evidence
     os.makedirs(EVID, exist_ok=True)
     ev = dict(property_id=prop, tier=tier, seed=seed, level=level, coverage=coverage, assumptions=assumptions,
               wall_s=round(wall, 2), violations=violations)
